@@ -100,6 +100,9 @@ def verdictExec (b : Book) (cfg : LiveCfg) (openBefore : Bool) (o : ExecObs) : O
       let ks := (runEvents o.emits).map (·.1)
       let closedNow := (notifs o.emits).contains false
       if cfg.forceOpen then (if closedNow then some "closed although forced open" else none)
+      -- ForcedClosed in force at completion (switched on under the call): IsOpen() reads false, the success path does
+      -- not even ask the closer — no opinion about closing
+      else if cfg.forcedClosed then none
       else if ks == [.success] then
         (if closedNow == decide (b.succ + 1 ≥ (maxOne b.req : Int)) then none
          else some "did not close exactly when max(1,RequiredConcurrentSuccessful) successes completed since the opening with no failure/timeout in between")
